@@ -9,6 +9,10 @@ from ..core import Report, Ctx
 from .. import gen, tracer
 from . import runlevel
 
+# case kinds of corpus/ entries (failing inputs of past regressions) that this module replays on every run
+CORPUS_KINDS = ('fit_fault_run',)
+
+
 
 def schedules(nfit, rng, tier):
     idx = list(range(nfit))
